@@ -7,8 +7,11 @@ import (
 
 	"verif/harness/internal/devx"
 	"verif/harness/internal/ev"
+	"verif/harness/internal/msg"
 	"verif/harness/internal/obs"
+	"verif/harness/internal/verify"
 	"verif/harness/internal/world"
+	"verif/harness/internal/xt"
 )
 
 // C07 — conformant requests from registered service providers are accepted (DESIGN.md §5 C07).
@@ -195,10 +198,146 @@ func c07JudgeAQ(p aqP) c07Verdict {
 	return v
 }
 
+// ---- histories: the registration of an SP changes between two requests on ONE provider -----------------
+
+var c07Histories = []string{"rotate-key-redirect", "rotate-key-post", "stop-signing", "start-signing", "acs-change", "late-registration", "slo-change", "rotate-key-attrquery"}
+
+func c07History(name string) c07Verdict {
+	w, err := world.New(world.Config{})
+	if err != nil {
+		panic(err)
+	}
+	w.Store.AddUser(&world.User{ID: "u-alice", Username: "alice", Email: "alice@example.com"})
+	reg := func(m msg.SPMeta) {
+		if _, err := w.Store.RegisterSP("app-a", m.XML()); err != nil {
+			panic(err)
+		}
+	}
+	a := msg.SPA()
+	authn := func() *xt.Node {
+		return msg.Authn(msg.AuthnOpts{Issuer: a.EntityID, Destination: w.Cfg.SSOLocation("")})
+	}
+	sso := func(sign *world.KeyPair, post bool) *world.Reply {
+		switch {
+		case post && sign != nil:
+			return w.Do(msg.PostForm("", w.Cfg.SSOPath(), "SAMLRequest", msg.SignEnveloped(authn(), nil, xt.Style{}, sign, msg.SignOpts{KeyInfo: true}), "rs", nil))
+		case post:
+			return w.Do(msg.PostForm("", w.Cfg.SSOPath(), "SAMLRequest", authn().Render(xt.Style{}), "rs", nil))
+		case sign != nil:
+			return w.Do(msg.Redirect{XML: authn().Render(xt.Style{}), RelayState: "rs", SigAlg: verify.AlgRSASHA256, Key: sign}.Request("", w.Cfg.SSOPath()))
+		}
+		return w.Do(msg.Redirect{XML: authn().Render(xt.Style{}), RelayState: "rs"}.Request("", w.Cfg.SSOPath()))
+	}
+	accepted := func(rep *world.Reply) bool {
+		return rep.Panic == "" && rep.Status == 303 && world.CountCalls(rep.Calls, "CreateAuthRequest") == 1
+	}
+	v := c07Verdict{Class: "history:" + name + ":ok", Detail: map[string]any{}}
+	fail := func(why string, rep *world.Reply) c07Verdict {
+		v.Class, v.Clause = "history:"+name+":rejected", "conformant-request-rejected-after-the-registration-changed"
+		v.Detail["step"] = why
+		if rep != nil {
+			v.Detail["reply"] = obs.Describe(rep, obs.Decode(rep)) + " " + clip(rep.Body, 200)
+		}
+		return v
+	}
+	switch name {
+	case "rotate-key-redirect", "rotate-key-post":
+		post := name == "rotate-key-post"
+		a.AuthnRequestsSigned = "true"
+		reg(a)
+		if rep := sso(world.SPA, post); !accepted(rep) {
+			return fail("first request (old key)", rep)
+		}
+		a.Certs = []string{world.SPB.B64}
+		reg(a)
+		if rep := sso(world.SPB, post); !accepted(rep) {
+			return fail("request signed with the newly registered key", rep)
+		}
+	case "stop-signing":
+		a.AuthnRequestsSigned = "true"
+		reg(a)
+		if rep := sso(world.SPA, false); !accepted(rep) {
+			return fail("first request (signed)", rep)
+		}
+		a.AuthnRequestsSigned = ""
+		reg(a)
+		if rep := sso(nil, false); !accepted(rep) {
+			return fail("unsigned request after the SP stopped requiring signatures", rep)
+		}
+	case "start-signing":
+		reg(a)
+		if rep := sso(nil, true); !accepted(rep) {
+			return fail("first request (unsigned)", rep)
+		}
+		a.AuthnRequestsSigned = "true"
+		reg(a)
+		if rep := sso(world.SPA, true); !accepted(rep) {
+			return fail("signed request after the SP started requiring signatures", rep)
+		}
+	case "acs-change":
+		reg(a)
+		if rep := sso(nil, false); !accepted(rep) {
+			return fail("first request", rep)
+		}
+		a.ACS = []msg.ACS{{Binding: msg.BindRedirect, Location: "https://sp-a.example/new/acs", Index: "0"}}
+		reg(a)
+		rep := sso(nil, false)
+		if !accepted(rep) {
+			return fail("request after the ACS list changed", rep)
+		}
+		if c := world.FindCall(rep.Calls, "CreateAuthRequest"); c.Args[1] != "https://sp-a.example/new/acs" {
+			v.Class, v.Clause = "history:"+name+":stale", "request-handled-with-a-stale-registration"
+			v.Detail["persisted"] = c.Args
+			return v
+		}
+	case "late-registration":
+		if rep := sso(nil, false); accepted(rep) {
+			return fail("request of an unregistered SP was accepted", rep)
+		}
+		reg(a)
+		if rep := sso(nil, false); !accepted(rep) {
+			return fail("request after the SP was registered", rep)
+		}
+	case "slo-change":
+		reg(a)
+		lo := func() *obs.Msg {
+			rep := w.Do(msg.PostForm("", w.Cfg.SLOPath(), "SAMLRequest", msg.Logout(msg.LogoutOpts{Issuer: a.EntityID}).Render(xt.Style{}), "rs", nil))
+			return obs.Decode(rep)
+		}
+		if m := lo(); !m.Success() {
+			return fail("first logout", nil)
+		}
+		a.SLO = []msg.SLO{{Binding: msg.BindPost, Location: "https://sp-a.example/new/slo"}}
+		reg(a)
+		if m := lo(); !m.Success() || m.Target != "https://sp-a.example/new/slo" {
+			v.Class, v.Clause = "history:"+name+":stale", "request-handled-with-a-stale-registration"
+			v.Detail["target"] = m.Target
+			return v
+		}
+	case "rotate-key-attrquery":
+		reg(a)
+		aq := func(k *world.KeyPair) *obs.Msg {
+			env := msg.SOAP(msg.AttrQuery(msg.AttrQueryOpts{Issuer: a.EntityID, NameID: "alice", Destination: w.Cfg.AttributeLocation("")}))
+			rep := w.Do(msg.SOAPRequest("", w.Cfg.AttributePath(), msg.SignEnveloped(env, []string{"Body", "AttributeQuery"}, xt.Style{}, k, msg.SignOpts{KeyInfo: true})))
+			return obs.Decode(rep)
+		}
+		if m := aq(world.SPA); !m.Success() {
+			return fail("first signed query", nil)
+		}
+		a.Certs = []string{world.SPB.B64}
+		reg(a)
+		if m := aq(world.SPB); !m.Success() {
+			return fail("query signed with the newly registered key", nil)
+		}
+	}
+	return v
+}
+
 type c07Replay struct {
 	SSO    *ssoP `json:"sso,omitempty"`
 	Logout *loP  `json:"logout,omitempty"`
 	AQ     *aqP  `json:"aq,omitempty"`
+	History string `json:"history,omitempty"`
 }
 
 func init() { Registry["C07"] = runC07 }
@@ -206,7 +345,7 @@ func init() { Registry["C07"] = runC07 }
 func runC07(ctx Ctx) int {
 	world.PinClock()
 	run := ev.NewRun("C07")
-	run.Rule = "messages labelled conformant by the generator only. AuthnRequest: all pairs (quick) / triples (thorough) of values of 28 dimensions (serialisation style, optional parts, timestamps, transports, signing none/rsa-sha1/rsa-sha256 x KeyInfo x certificate text wrapping x signer implementation, percent-encoding style, parameter order, SAMLEncoding, SP/IdP signing requirements, issuer/endpoint configuration, ACS shapes) plus the full product of the 11-dimensional encoding/signing sub-space; LogoutRequest: k<=3 over 12 dims; AttributeQuery: k<=3 over 12 dims. One execution = fresh provider + one real request; oracle: AuthnRequest -> exactly one CreateAuthRequest and 303; LogoutRequest -> LogoutResponse Success; AttributeQuery -> SOAP Response Success for the queried subject"
+	run.Rule = "messages labelled conformant by the generator only. AuthnRequest: all pairs (quick) / triples (thorough) of values of 28 dimensions (serialisation style, optional parts, timestamps, transports, signing none/rsa-sha1/rsa-sha256 x KeyInfo x certificate text wrapping x signer implementation, percent-encoding style, parameter order, SAMLEncoding, SP/IdP signing requirements, issuer/endpoint configuration, ACS shapes) plus the full product of the 11-dimensional encoding/signing sub-space; LogoutRequest: k<=3 over 12 dims; AttributeQuery: k<=3 over 12 dims; plus 8 histories in which the SP's registration changes between two requests on one provider (key rotation, signing requirement switched on/off, ACS / SLO list replaced, late registration). One execution = fresh provider + one real request; oracle: AuthnRequest -> exactly one CreateAuthRequest and 303; LogoutRequest -> LogoutResponse Success; AttributeQuery -> SOAP Response Success for the queried subject"
 	run.Assume = []string{"conformance is the generator's notion (SAML core/bindings: UTC 'Z' timestamps, Destination = advertised location or absent, schema element order, RSA signatures computed over the octets sent)", "signature algorithms rsa-sha1 and rsa-sha256 only"}
 	if ctx.Replay != "" {
 		var rp c07Replay
@@ -222,6 +361,8 @@ func runC07(ctx Ctx) int {
 			v = c07JudgeLogout(*rp.Logout)
 		case rp.AQ != nil:
 			v = c07JudgeAQ(*rp.AQ)
+		case rp.History != "":
+			v = c07History(rp.History)
 		}
 		fmt.Printf("replay C07: class=%s clause=%q detail=%v\n", v.Class, v.Clause, v.Detail)
 		if v.Clause != "" {
@@ -309,6 +450,9 @@ func runC07(ctx Ctx) int {
 		p := it.p
 		report(c07JudgeAQ(p), "attribute-query", it.labels, c07Replay{AQ: &p})
 	})
+	for _, h := range c07Histories {
+		report(c07History(h), "history", []string{"history=" + h}, c07Replay{History: h})
+	}
 	run.Sample(sItems[0].p)
 	run.Sample(sItems[len(sItems)/2].p)
 	run.Sample(lItems[len(lItems)/2].p)
